@@ -1,12 +1,21 @@
 #!/usr/bin/env python3
-"""Print a markdown table of the seeded breaking changes and what the checks reported for each."""
-import json, os, sys
+"""Seeded breaking changes: write the full table to seeded/INDEX.md and print a compact per-property / per-wave
+matrix (for DESIGN.md).  A cell reads  d/n  = detected / changes of that wave; `*` marks a wave in which some
+detection came without a failing input; the exceptions are listed below the matrix."""
+import json, os, re
 HERE = os.path.dirname(os.path.dirname(os.path.abspath(__file__)))
 S = os.path.join(HERE, 'seeded')
-rows = []
-for d in sorted(os.listdir(S)):
+
+
+def key(d):
+    m = re.match(r'C(\d+)-(\d+)$', d)
+    return (int(m.group(1)), int(m.group(2))) if m else (999, 0)
+
+
+rows, cells, notes = [], {}, []
+for d in sorted((x for x in os.listdir(S) if os.path.isdir(os.path.join(S, x))), key=key):
     p = os.path.join(S, d)
-    if not os.path.isdir(p) or not os.path.exists(os.path.join(p, 'meta.json')):
+    if not os.path.exists(os.path.join(p, 'meta.json')):
         continue
     m = json.load(open(os.path.join(p, 'meta.json')))
     r = json.load(open(os.path.join(p, 'result.json'))) if os.path.exists(os.path.join(p, 'result.json')) else {}
@@ -20,6 +29,45 @@ for d in sorted(os.listdir(S)):
         verdict = 'VIOLATION, no-failing-input-found'
     else:
         verdict = '**missed**'
-    rows.append('| %s | %s | %s | %s |' % (d, m.get('summary', '').replace('|', '/')[:170], m.get('needs', '').replace('|', '/')[:150], verdict))
-print('| id | change | needs | `./check` on the patched tree |\n|---|---|---|---|')
-print('\n'.join(rows))
+    summary = (m.get('summary') or m.get('change') or '').replace('|', '/').replace('\n', ' ')
+    rows.append('| %s | %s | %s | %s | %s |' % (d, summary[:300], (m.get('needs') or '').replace('|', '/').replace('\n', ' ')[:260],
+                                                 verdict, r.get('head', '')))
+    pid, k = d.split('-')
+    wave = (int(k) - 1) // 3 + 1
+    if wave <= 2:
+        wave = 1 if int(k) <= 3 else 2
+    c = cells.setdefault((pid, wave), [0, 0, False])
+    c[1] += 1
+    if verdict.startswith('VIOLATION'):
+        c[0] += 1
+    if verdict != 'VIOLATION with failing input':
+        c[2] = True
+        notes.append('%s: %s — %s' % (d, verdict, summary[:140]))
+
+with open(os.path.join(S, 'INDEX.md'), 'w') as f:
+    f.write('# Seeded breaking changes and what `./check` reported on the patched tree (last run of each)\n\n')
+    f.write('| id | change | needs | `./check` on the patched tree | /repo HEAD of that run |\n|---|---|---|---|---|\n')
+    f.write('\n'.join(rows) + '\n')
+
+waves = sorted(set(w for _, w in cells))
+pids = sorted(set(p for p, _ in cells))
+print('| property | ' + ' | '.join('wave %d' % w for w in waves) + ' |')
+print('|---|' + '---|' * len(waves))
+tot = {w: [0, 0] for w in waves}
+for p in pids:
+    line = []
+    for w in waves:
+        c = cells.get((p, w))
+        if not c:
+            line.append('-')
+            continue
+        tot[w][0] += c[0]
+        tot[w][1] += c[1]
+        line.append('%d/%d%s' % (c[0], c[1], '*' if c[2] else ''))
+    print('| %s | %s |' % (p, ' | '.join(line)))
+print('| **all** | ' + ' | '.join('**%d/%d**' % tuple(tot[w]) for w in waves) + ' |')
+print()
+print('Full table (one row per change: what it does, what it needs, verdict): `seeded/INDEX.md`.  Exceptions (`*`):')
+print()
+for n in notes:
+    print('* ' + n)
